@@ -27,7 +27,9 @@ OBLIGATIONS_FLAT = ['C01Flat.settled_exists', 'C01Flat.settled_unique', 'C01Flat
                     'FlatM.exec_nba', 'FlatM.cycle_rd', 'FlatM.FlatDesign.cycOK', 'FlatM.FlatDesign.ship_run',
                     'FlatM.kind_inst_prop', 'FlatM.reg_inst_clock',
                     'C01Flat.mkSim_shipInv', 'C01Flat.check_wf', 'C01Flat.text_run', 'C01Flat.text_powerup', 'C01Flat.exS_text',
-                    'C01Flat.exS_check', 'FlatM.FlatSrc.flatten_emit', 'FlatM.FlatSrc.flatS_perm', 'FlatM.FlatSrc.check_sound']
+                    'C01Flat.exS_check', 'FlatM.FlatSrc.flatten_emit', 'FlatM.FlatSrc.flatS_perm', 'FlatM.FlatSrc.check_sound',
+                    'C01Flat.exS2_text', 'C01Flat.exS2_check', 'C01.inline_concat', 'C01.inline_repeat', 'C01.inline_sext',
+                    'C01.inline_smul', 'C01.gen_concatMSBF']
 
 
 # ---- flat-text stream: the elaboration theorem `C01Flat.text_run` is tied to the REAL text per design -------------------------------
@@ -35,7 +37,7 @@ OBLIGATIONS_FLAT = ['C01Flat.settled_exists', 'C01Flat.settled_unique', 'C01Flat
 # (`FlatM.FlatSrc`) from the live object graph; lean/Drv/C01Flat.lean then decides (i) parsed real text == `FlatSrc.emit` of it
 # (decidable equality on V.Design) and (ii) `FlatSrc.check` (sound for the hypotheses of `text_run`: `FlatSrc.check_sound`).
 FLAT_KINDS = ['And2', 'Or2', 'Not', 'Buf', 'Mux2', 'Sub', 'Mul', 'AddCarryIn', 'Constant', 'ShiftLeftConstant', 'ShiftRightConstant',
-              'Bit', 'Range', 'ZeroExtend', 'Reg']
+              'Bit', 'Range', 'ZeroExtend', 'Repeat', 'ConcatenateLSBF', 'ConcatenateMSBF', 'SignExtend', 'SignedMul', 'Reg']
 
 
 class NotFlat(Exception):
@@ -90,6 +92,11 @@ def export_flat(top):
         elif k == 'Sub': c = f'(prim sub {g(ch.a, ch.b, ch.r)})'
         elif k == 'Mul': c = f'(prim mul {g(ch.a, ch.b, ch.r)})'
         elif k == 'Range': c = f"(prim range {nid(ch.a)} {nat(ch.high, 'range')} {nat(ch.low, 'range')} {nid(ch.r)})"
+        elif k == 'ConcatenateMSBF': c = f"(prim catm {nid(ch.r)} ({g(*ch.ins)}))"
+        elif k == 'ConcatenateLSBF': c = f"(prim catl {nid(ch.r)} ({g(*ch.ins)}))"
+        elif k == 'Repeat': c = f'(prim rept {g(ch.i, ch.r)})'
+        elif k == 'SignExtend': c = f'(prim sext {g(ch.a, ch.r)})'
+        elif k == 'SignedMul': c = f'(prim smul {g(ch.a, ch.b, ch.r)})'
         elif k == 'Reg':
             c = (f"(reg {getInstanceName(ch)} {getVerilogModuleName(ch)} {int(ch.r is not None)} {int(ch.e is not None)} "
                  f"{nat(ch.reset_value, 'reset value')} {nid(ch.d)} {nid(ch.e)} {nid(ch.r)} {nid(ch.q)})")
@@ -457,7 +464,10 @@ def main(res, tier, rng, replay):
                        'parameters (lib), 2-3 level hierarchies with reused structural blocks (hier); the REAL emitted text is parsed and executed by the '
                        'Lean Verilog semantics on a seeded input history from power-up and compared on every top-level output at every cycle with the real '
                        'simulator; a mismatch on a design that carries a known-finding feature is attributed to the finding only if the text repaired for '
-                       'exactly that feature matches the simulator')
+                       'exactly that feature matches the simulator; flat-text stream: for every plan/lib design and a dedicated stream of netlists of '
+                       'covered primitives + Reg, the description imported from the live design is checked by lean/Drv/C01Flat.lean: parsed real text == '
+                       'FlatSrc.emit (decidable equality) and FlatSrc.check, which are exactly the hypotheses of the design-level theorem C01Flat.text_run '
+                       '(all widths, all input histories from power-up); a covered design whose text differs from the model is a correspondence failure')
     res.assumptions += ['formal reading of IEEE 1364-2005 in lean/Py4hwV/Verilog (no external Verilog simulator available to cross-check it)',
                         'value-level x (one unknown flag per value)', 'unsized decimal literals are 32-bit signed',
                         'one simulator cycle = falling then rising edge of the base clock; derived/gated clocks not explored by this check',
